@@ -30,6 +30,7 @@ _REQUIRED = {"exhaustive_plans": 2_985_984, "feasible_plans_confirmed": 1,
             "njit_oracle_cross_checked": 2000}
 
 SETTINGS_QUICK = [(2, 1, 3, 1, 3, 1, 6), (2, 2, 3, 2, 3, 1, 6),
+                  (2, 1, 3, 2, 3, 1, 6),
                   (2, 1, 2, 1, 2, 0, 6)]
 SETTINGS_THOROUGH = SETTINGS_QUICK + [
     (2, 1, 3, 1, 3, 0, 6), (2, 1, 3, 1, 3, 2, 6), (2, 1, 3, 1, 3, 1, 3),
